@@ -213,7 +213,7 @@ func c35Worker(w *WorkerCtx) {
 	if problem := lebSweep(NewRng(w.Seed)); problem != "" {
 		v := Violation{Property: "C35", Oracle: "leb128.round-trip", Key: "leb128", Detail: problem}
 		rf := &ReplayFile{Property: "C35", Oracle: v.Oracle, VerifSeed: int64(w.Seed), Tier: w.Tier, Kind: "c35", Violation: &v}
-		w.Emit(WorkResult{Kind: "item", Violations: []Violation{v}, Replay: WriteReplay(filepath.Join(verifDir(), "replay"), rf, "leb128"), NonTrivial: true, Shape: "leb"})
+		w.Emit(WorkResult{Kind: "item", Violations: []Violation{v}, Replay: WriteReplay(filepath.Join(outDir(), "replay"), rf, "leb128"), NonTrivial: true, Shape: "leb"})
 		return
 	}
 	// compile zoo: the same multi-contract worlds in every worker process, each compiled from scratch several times
@@ -235,7 +235,7 @@ func c35Worker(w *WorkerCtx) {
 			}
 			cu, _ := json.Marshal(map[string]uint64{"zoo": seed})
 			rf := &ReplayFile{Property: "C35", Oracle: v.Oracle, VerifSeed: int64(w.Seed), Tier: w.Tier, Kind: "c35", Custom: cu, Violation: &v}
-			res.Replay = WriteReplay(filepath.Join(verifDir(), "replay"), rf, fmt.Sprintf("zoo-%d", seed))
+			res.Replay = WriteReplay(filepath.Join(outDir(), "replay"), rf, fmt.Sprintf("zoo-%d", seed))
 			res.Violations = []Violation{v}
 			w.Emit(res)
 			return
@@ -255,7 +255,7 @@ func c35Worker(w *WorkerCtx) {
 			v := r.Violations[0]
 			cu, _ := json.Marshal(map[string]uint64{"seed": seed})
 			rf := &ReplayFile{Property: "C35", Oracle: v.Oracle, VerifSeed: int64(w.Seed), Tier: w.Tier, Kind: "c35", Custom: cu, Violation: &v}
-			res.Replay = WriteReplay(filepath.Join(verifDir(), "replay"), rf, fmt.Sprintf("history-%d", seed))
+			res.Replay = WriteReplay(filepath.Join(outDir(), "replay"), rf, fmt.Sprintf("history-%d", seed))
 			res.Violations = []Violation{v}
 			w.Emit(res)
 			return
